@@ -15,6 +15,8 @@ A unit template (units/<name>.rs) is Verus text with directive comments:
   //@probe                                 vacuity probe position (template or replacement text)
   //@ctx <text>                            an assumed-context statement, copied to evidence
   //@undecided <text>                      a clause this unit does not decide, copied to evidence
+  //@pinfile file= sha=<16 hex>            a whole source file (test modules, comments, layout apart) pinned by hash: covers everything
+                                           in it that is neither under contract nor pinned by name
   //@pin file= fn= [nth=] sha=<16 hex>     a function NOT under contract, pinned by the hash of its code (comments and
                                            layout ignored): a change makes the unit undecided -> bounded sweep; tools/repin.py
 
@@ -154,6 +156,25 @@ def pin_hash(relpath, fn, nth=1):
     # comments blanked (masked), but string literals kept: take code from `text` where masked is not blank,
     # except inside comments; simplest faithful choice: strip comments with the lexer's comment mask
     code = rustlex.strip_comments(text[pos:cb + 1]) if hasattr(rustlex, "strip_comments") else masked[pos:cb + 1]
+    code = re.sub(r"\s+", " ", code).strip()
+    return hashlib.sha256(code.encode()).hexdigest()[:16]
+
+
+def file_hash(relpath):
+    """sha256[:16] of a whole source file with its test modules (`#[cfg(test)] mod .. { .. }`) removed, comments blanked and
+    white space collapsed."""
+    path = os.path.join(REPO, relpath)
+    if not os.path.exists(path):
+        raise LostAnchor("source file %s not found" % relpath)
+    text = open(path, encoding="utf-8").read()
+    while True:
+        masked = rustlex.mask(text)
+        m = re.search(r"#\[cfg\(test\)\]\s*(?:pub\s+)?mod\s+\w+\s*\{", masked)
+        if not m:
+            break
+        cb = rustlex.match_brace(masked, m.end() - 1)
+        text = text[:m.start()] + text[cb + 1:]
+    code = rustlex.strip_comments(text) if hasattr(rustlex, "strip_comments") else rustlex.mask(text)
     code = re.sub(r"\s+", " ", code).strip()
     return hashlib.sha256(code.encode()).hexdigest()[:16]
 
@@ -569,6 +590,15 @@ def generate(tpl_path, width="u32", vacuity=False):
             if not re.search(kv["re"], txt, re.M):
                 raise LostAnchor("expected text `%s` no longer present in %s (a stand-in's stated facts depend on it)" % (kv["re"], kv["file"]))
             g.expects.append({"file": kv["file"], "re": kv["re"]})
+            i += 1
+        elif s.startswith("//@pinfile"):
+            # a whole source file of the property's anchors (test modules, comments and layout apart): whatever in it is
+            # neither under contract nor pinned by name is covered by this; a change makes the unit undecided
+            kv = _parse_kv(s[len("//@pinfile"):])
+            h = file_hash(kv["file"])
+            if h != kv.get("sha"):
+                raise LostAnchor("source file %s changed (code hash %s, pinned %s): what is not under contract in it is judged by the bounded sweep" % (kv["file"], h, kv.get("sha")))
+            g.pins.append({"file": kv["file"], "fn": "*", "sha": h})
             i += 1
         elif s.startswith("//@pin"):
             # a function the property depends on that is NOT under contract: its code is pinned by hash, a change
